@@ -105,15 +105,14 @@ extern int gh_case;           /* proof-split selector set by harnesses; 0 = no r
 
 size_t write_contract(scpi_t *context, const char *data, size_t len)
 __CPROVER_requires(len > 0 && data != NULL && __CPROVER_r_ok(data, len))
-/* ghost counters cannot overflow: budget levels, see OUT_LEVEL */
-__CPROVER_requires(gh_out_len <= (1ul << 62) && len <= (1ul << 32) && gh_out_calls <= (1ul << 62))
+/* the byte counter is unsigned and may wrap; the watched-position clauses speak only about runs that have emitted less than 2^62 bytes */
 __CPROVER_assigns(gh_out_len, gh_out_calls, gh_watch_val, gh_out_last, gh_out_first, gh_last_data, gh_last_len)
 __CPROVER_ensures(RET == len)
 __CPROVER_ensures(gh_out_len == OLD(gh_out_len) + len && gh_out_calls == OLD(gh_out_calls) + 1)
 __CPROVER_ensures(gh_out_last == data[len - 1] && gh_out_first == data[0])
 __CPROVER_ensures(gh_last_data == data && gh_last_len == len)
-__CPROVER_ensures((gh_watch >= OLD(gh_out_len) && gh_watch < gh_out_len) ==> gh_watch_val == data[gh_watch - OLD(gh_out_len)])
-__CPROVER_ensures(!(gh_watch >= OLD(gh_out_len) && gh_watch < gh_out_len) ==> gh_watch_val == OLD(gh_watch_val))
+__CPROVER_ensures((OLD(gh_out_len) <= (1ul << 62) && len <= (1ul << 32) && gh_watch >= OLD(gh_out_len) && gh_watch < gh_out_len) ==> gh_watch_val == data[gh_watch - OLD(gh_out_len)])
+__CPROVER_ensures((OLD(gh_out_len) <= (1ul << 62) && len <= (1ul << 32) && !(gh_watch >= OLD(gh_out_len) && gh_watch < gh_out_len)) ==> gh_watch_val == OLD(gh_watch_val))
 ;
 
 scpi_result_t flush_contract(scpi_t *context)
@@ -149,7 +148,7 @@ __CPROVER_ensures(gh_reset_n == OLD(gh_reset_n) + 1)
 
 /* output budget: a function of level L may be called while the ghost byte/call counters are below
  * 2^(62-L); it emits far less than 2^(61-L), so its callees' level-(L-1) preconditions hold. */
-#define OUT_LEVEL(L) (gh_out_len <= (1ul << (62 - (L))) && gh_out_calls <= (1ul << (62 - (L))))
+#define OUT_LEVEL(L) 1   /* (historical: output budget levels; no longer needed since the counters may wrap) */
 #define GHOST_OUT gh_out_len, gh_out_calls, gh_watch_val, gh_out_last, gh_out_first, gh_last_data, gh_last_len
 #define GHOST_ERRCB gh_err_n, gh_err_last
 #define GHOST_SRQ gh_srq_n, gh_srq_val
